@@ -558,8 +558,10 @@ PRELUDE_C = r"""
 #include <unistd.h>
 #include <pthread.h>
 #include <sys/wait.h>
+#include <sys/time.h>
 static __thread volatile int D;   /* the program's own idea of its call depth */
 static __thread int TASK;
+static volatile int AD;         /* depth at which the atexit handlers run */
 static volatile int sink;
 static jmp_buf jb[8];
 #define NI __attribute__((noinline))
@@ -593,6 +595,12 @@ class E2EGen:
         self.allow_old = allow_old_jmpbuf
         self.thread_used = False
         self.has_sig = False
+        self.fork_used = False
+        self.in_phase2 = False
+        self.exec_body = None
+        self.atexit_fn = None
+        self.exc_flavor = rng.choice(["int", "class", "std"])
+        self.timer = rng.random() < 0.25
 
     def new_func(self):
         self.nf += 1
@@ -654,7 +662,7 @@ class E2EGen:
                 lines += body
                 if term == ("throw",):
                     self.tags.add("catch")
-                    lines.append(ind + "} catch (int ev_) { D = sd_; logline(\"C\", \"catch\", ev_);")
+                    lines.append(ind + "} %s D = sd_; logline(\"C\", \"catch\", ev_);" % self.catch_head())
                     # calls made by the handler may throw past it (regression class of fix 0bd540c)
                     hb, term2 = self.gen_body(depth, active_jbs, in_try, in_thread, ind + "\t")
                     if term2 == ("throw",):
@@ -668,13 +676,13 @@ class E2EGen:
                     if term2:
                         return lines, term2
                 else:
-                    lines.append(ind + "} catch (int ev_) { D = sd_; logline(\"C\", \"catch\", ev_); } }")
+                    lines.append(ind + "} %s D = sd_; logline(\"C\", \"catch\", ev_); } }" % self.catch_head())
                     if term:
                         return lines, term
             elif x < 0.74 and self.lang == "c++" and in_try > 0:
                 self.tags.add("throw")
                 self.tags.add("throw-depth-%d" % min(depth, 5))
-                lines.append(ind + "throw %d;" % rng.randrange(1, 50))
+                lines.append(ind + self.throw_stmt(rng.randrange(1, 50)))
                 return lines, ("throw",)
             elif x < 0.78 and not in_thread and not self.has_sig:
                 self.has_sig = True
@@ -688,24 +696,56 @@ class E2EGen:
                                    "int st_ = 0; waitpid(p_, &st_, 0); sink += WEXITSTATUS(st_); }")
             elif x < 0.86 and not in_thread and self.lang == "c":
                 self.tags.add("fork")
-                lines.append(ind + "{ pid_t p_ = fork(); if (p_ == 0) { _exit(3); } int st_ = 0; waitpid(p_, &st_, 0); sink += WEXITSTATUS(st_); }")
+                if not self.fork_used and rng.random() < 0.7 and depth < 8:
+                    # the child makes traced calls of its own before it exits (its log is task 2)
+                    self.fork_used = True
+                    self.tags.add("fork-child-calls")
+                    cfn, _t = self.gen_func(depth + 2, [], 0, "child", leafish=rng.random() < 0.4)
+                    lines.append(ind + "{ pid_t p_ = fork(); if (p_ == 0) { TASK = 2; CALL(%s, 2); _exit(3); } "
+                                       "int st_ = 0; waitpid(p_, &st_, 0); sink += WEXITSTATUS(st_); }" % cfn)
+                else:
+                    lines.append(ind + "{ pid_t p_ = fork(); if (p_ == 0) { _exit(3); } int st_ = 0; waitpid(p_, &st_, 0); sink += WEXITSTATUS(st_); }")
             elif x < 0.90 and not in_thread and not self.thread_used and in_try == 0 and not active_jbs and self.lang == "c":
                 self.thread_used = True
                 self.tags.add("thread")
                 fn, term = self.gen_func(0, [], 0, True, thread_root=True)
                 lines.append(ind + "{ pthread_t t_; pthread_create(&t_, NULL, th_main, NULL); pthread_join(t_, NULL); }")
                 self.thread_entry = fn
-            elif x < 0.93 and in_thread and depth >= 1 and self.lang == "c":
+            elif x < 0.93 and in_thread is True and depth >= 1 and self.lang == "c":
                 self.tags.add("pthread_exit-nested-%d" % min(depth, 3))
                 lines.append(ind + "pthread_exit(NULL);")
                 return lines, ("texit",)
             elif x < 0.95 and not in_thread and depth >= 2 and in_try == 0:
                 self.tags.add("exit-nested")
-                lines.append(ind + "exit(%d);" % rng.randrange(0, 40))
+                lines.append(ind + "D++; AD = D; exit(%d);" % rng.randrange(0, 40))
+                return lines, ("exit",)
+            elif x < 0.965 and not in_thread and depth >= 1 and in_try == 0 and not active_jbs and self.exec_body is None \
+                    and not self.in_phase2 and self.budget > 3 and not self.timer:
+                # exec of the program itself: the second phase starts again at depth 0 in the same task
+                self.tags.add("exec-self")
+                self.tags.add("exec-depth-%d" % min(depth, 4))
+                lines.append(ind + "execl(\"/proc/self/exe\", \"p\", \"2\", (char *)0); _exit(98);")
+                self.in_phase2 = True
+                saved = (self.njb, self.latest_jb)
+                self.exec_body, _t = self.gen_body(0, [], 0, False)
                 return lines, ("exit",)
             else:
                 lines.append(ind + "sink += %d;" % rng.randrange(1, 9))
         return lines, None
+
+    def catch_head(self):
+        if self.exc_flavor == "class":
+            return "catch (Ex ex_) { int ev_ = ex_.v;"          # by value: copy constructor runs in the landing pad
+        if self.exc_flavor == "std":
+            return "catch (const std::exception &ex_) { int ev_ = atoi(ex_.what());"
+        return "catch (int ev_) {"
+
+    def throw_stmt(self, v):
+        if self.exc_flavor == "class":
+            return "throw Ex(%d);" % v
+        if self.exc_flavor == "std":
+            return "throw std::runtime_error(\"%d\");" % v
+        return "throw %d;" % v
 
     def gen_func(self, depth, active_jbs, in_try, in_thread, leafish=False, thread_root=False):
         name = self.new_func()
@@ -724,8 +764,12 @@ class E2EGen:
             self.tags.add("tail-position-call")
         lines = ["static NI int %s(int x)" % name, "{", "\tENTER(\"%s\");" % name]
         if guard:
-            lines.append("\tGuard g_(%d);" % self.rng.randrange(1, 9))
-            self.tags.add("cleanup-guard")
+            if self.rng.random() < 0.35:
+                lines.append("\tIGuard ig_(%d);" % self.rng.randrange(1, 9))
+                self.tags.add("cleanup-guard-inline-libcall")
+            else:
+                lines.append("\tGuard g_(%d);" % self.rng.randrange(1, 9))
+                self.tags.add("cleanup-guard")
         lines += body
         if tail:
             lines.append("\treturn %s(x + 1);" % tail)
@@ -737,23 +781,46 @@ class E2EGen:
 
     def source(self):
         rng = self.rng
+        use_atexit = rng.random() < 0.3
+        if use_atexit:
+            self.atexit_fn, _t = self.gen_func(1, [], 0, False, leafish=True)
+            self.tags.add("atexit-handler")
+        if self.timer:
+            self.tags.add("async-timer-signal")
         body, term = self.gen_body(0, [], 0, False)
         out = [PRELUDE_C]
         if self.lang == "c++":
-            out.append("struct Guard { int v; int d0; NI Guard(int v_) : v(v_), d0(D) { sink += v; }\n"
-                       "  NI ~Guard() { D = d0; logline(\"E\", \"dtor\", D); sink += v; } };\n")
+            out.append("#include <stdexcept>\n#include <exception>\n"
+                       "struct Ex { int v; NI Ex(int v_) : v(v_) {} NI Ex(const Ex &o) : v(o.v) { sink += 0; } };\n"
+                       "struct Guard { int v; int d0; NI Guard(int v_) : v(v_), d0(D) { sink += v; }\n"
+                       "  NI ~Guard() { D = d0; logline(\"E\", \"dtor\", D); sink += v; } };\n"
+                       "struct IGuard { int v; IGuard(int v_) : v(v_) {} ~IGuard() { puts(\"g\"); } };\n")
         for name, _ in self.funcs:
             out.append("static int %s(int x);" % name)
         if self.has_sig:
             out.append("static void on_sig(int s) { (void)s; int s_ = D; D++; sink += %s(1); D = s_; }" % self.sig_handler)
+        if self.timer:
+            # asynchronous: the handler is traced but touches nothing the program prints
+            out.append("static volatile long ticks_;\nstatic NI int tick_leaf(int x) { return x + 1; }\n"
+                       "static NI void on_tick(int s) { (void)s; ticks_ += tick_leaf(1); }")
         if self.thread_used:
             out.append("static void *th_main(void *a) { (void)a; TASK = 1; D = 1; sink += %s(1); return NULL; }" % self.thread_entry)
-        # callees are defined after their callers (prototypes above): bodies in reverse creation order
+        if use_atexit:
+            out.append("static void at_exit_fn(void) { D = AD + 1; sink += %s(1); }" % self.atexit_fn)
         for name, lines in self.funcs:
             out.append("\n".join(lines))
-        out.append("int main(void)\n{\n\tsetvbuf(stdout, NULL, _IONBF, 0);\n\tENTER(\"main\");")
+        out.append("int main(int argc, char **argv)\n{\n\tsetvbuf(stdout, NULL, _IONBF, 0);\n\t(void)argv;")
+        if self.timer:
+            out.append("\t{ struct itimerval it_ = { { 0, 200 }, { 0, 200 } }; signal(SIGALRM, on_tick); setitimer(ITIMER_REAL, &it_, NULL); }")
+        out.append("\tENTER(\"main\");")
+        if use_atexit:
+            out.append("\tatexit(at_exit_fn);")
+        if self.exec_body is not None:
+            out.append("\tif (argc > 1) {")
+            out += self.exec_body
+            out.append("\t\tlogline(\"S\", \"sink2\", sink);\n\t\tAD = 0; return sink & 31;\n\t}")
         out += body
-        out.append("\tlogline(\"S\", \"sink\", sink);\n\treturn sink & 63;\n}")
+        out.append("\tlogline(\"S\", \"sink\", sink);\n\tAD = 0;\n\treturn sink & 63;\n}")
         return "\n".join(out) + "\n"
 
 
@@ -817,6 +884,28 @@ __attribute__((noinline)) void t1(int x) { try { t2(x); } catch (int e) { sink +
 int main() { t1(1); printf("%d\n", sink); return 0; }
 """
 
+E2E_WITNESS_ABANDONED_LIBCALL_LJ = r"""
+#define _GNU_SOURCE
+#include <stdio.h>
+#include <signal.h>
+#include <setjmp.h>
+static sigjmp_buf jb; static volatile int sink;
+__attribute__((noinline)) int leaf(int x) { sink += x; return x; }
+__attribute__((noinline)) void on_sig(int s) { (void)s; leaf(1); siglongjmp(jb, 1); }
+__attribute__((noinline)) int deep(int d) { if (d == 0) { raise(SIGUSR1); return 0; } return deep(d - 1) + 1; }
+__attribute__((noinline)) int work(int k) { if (sigsetjmp(jb, 1) == 0) { deep(3); leaf(100); } else { leaf(10 + k); } return leaf(20); }
+int main(void) { signal(SIGUSR1, on_sig); work(1); work(2); work(3); leaf(30); printf("%d\n", sink); return 0; }
+"""
+
+E2E_WITNESS_ABANDONED_LIBCALL_EXC = r"""
+#include <cstdio>
+#include <cstdlib>
+volatile int sink;
+__attribute__((noinline)) int cmp(const void *a, const void *b) { sink++; if (sink == 2 || sink == 5) throw 1; return *(const int *)a - *(const int *)b; }
+__attribute__((noinline)) int sorter() { int v[4] = {4, 3, 2, 1}; try { qsort(v, 4, sizeof(int), cmp); } catch (int) { return 0; } return v[0]; }
+int main() { sorter(); sorter(); sorter(); printf("%d\n", sink); return 0; }
+"""
+
 E2E_WITNESS_PTHREAD_EXIT_C = r"""
 #include <stdio.h>
 #include <pthread.h>
@@ -846,7 +935,8 @@ void *th(void *a) { G b(100); sink += g(1); return NULL; }
 int main(void) { pthread_t t; pthread_create(&t, NULL, th, NULL); pthread_join(t, NULL); printf("%d\n", sink); return 0; }
 """
 
-FLAGS = {"c": [["-pg", "-O0"], ["-pg", "-O2"], ["-finstrument-functions", "-O0"], ["-finstrument-functions", "-O2"]],
+FLAGS = {"c": [["-pg", "-O0"], ["-pg", "-O2"], ["-pg", "-O2", "-D_FORTIFY_SOURCE=2"], ["-finstrument-functions", "-O0"],
+               ["-finstrument-functions", "-O2"]],
          "c++": [["-pg", "-O0"], ["-pg", "-O2"], ["-finstrument-functions", "-O1"]]}
 
 LINE_RE = re.compile(r"^\s*\[\s*(\d+)\] \| ( *)([^ ].*)$")
@@ -962,12 +1052,13 @@ def judge_e2e(obs):
         probs.append(("replay", "main() not found in replay output"))
         return probs, None
     for task, want in calls.items():
+        want2 = [("Guard::~Guard" if n == "dtor" else n, d) for n, d in want]
         if task == 0:
             got = own_funcs(rp[main_tid])
         else:
             others = [own_funcs(e) for t, e in rp.items() if t != main_tid and own_funcs(e)]
-            got = others[0] if others else []
-        want2 = [("Guard::~Guard" if n == "dtor" else n, d) for n, d in want]
+            same = [o for o in others if [n for n, _ in o] == [n for n, _ in want2]]
+            got = same[0] if same else (others[0] if others else [])
         if [n for n, _ in got] != [n for n, _ in want2]:
             probs.append(("calls", "task %d: replay shows calls %s..., the program made %s..." % (
                 task, [n for n, _ in got][:12], [n for n, _ in want2][:12])))
@@ -977,7 +1068,8 @@ def judge_e2e(obs):
                 task, k, got[k][0], got[k][1], want2[k][1])))
     # the record stream of the main task for the replay model (setjmp/longjmp programs)
     stream = None
-    if sj and main_tid in obs.get("dump", {}):
+    # (a program that execs itself restarts at depth 0 in the same task: the stream model has no exec record)
+    if sj and main_tid in obs.get("dump", {}) and not any(nm.startswith("exec") for _, nm, _ in obs["dump"][main_tid]):
         es, si, li = [], 0, 0
         ok = True
         for ty, nm, dep in obs["dump"][main_tid]:
@@ -1036,6 +1128,11 @@ def run_e2e(ctx, objdir):
                  "of the stale entry of the unwound constructor; the unwinder then continued after the throwing call: exception swallowed"},
         {"name": "w_paddepth", "src": E2E_WITNESS_PAD_LIBCALL_DEPTH, "lang": "c++", "flags": ["-pg", "-O2"], "key": "landing-pad-libcall-depth",
          "what": "a library function called by an inlined destructor in a cleanup pad was shown as a child of the function just unwound"},
+        {"name": "w_ablj", "src": E2E_WITNESS_ABANDONED_LIBCALL_LJ, "lang": "c", "flags": ["-pg", "-O0"], "key": "abandoned-libcall-untraced-longjmp",
+         "what": "a library call (raise) abandoned by siglongjmp from its signal handler was never traced again", "count": ("raise", 3)},
+        {"name": "w_abexc", "src": E2E_WITNESS_ABANDONED_LIBCALL_EXC, "lang": "c++", "flags": ["-pg", "-O0"], "key": "abandoned-libcall-untraced-exception",
+         "what": "a library call (qsort) abandoned by an exception thrown from its callback was never traced again: later callbacks one level too high",
+         "count": ("qsort", 3)},
         {"name": "w_maxstack", "src": E2E_WITNESS_MAX_STACK, "lang": "c", "flags": ["-pg", "-O0"], "key": "setjmp-beyond-rstack-max",
          "record_opts": ["--max-stack=2000"],
          "what": "setjmp with more than MCOUNT_RSTACK_MAX (1024) shadow-stack entries under --max-stack=2000: the snapshot array "
@@ -1075,6 +1172,11 @@ def run_e2e(ctx, objdir):
     wprobs = {}
     for w in witnesses:
         probs, stream = judge_e2e(wres[w["name"]])
+        if w.get("count") and not probs:
+            nm, want = w["count"]
+            got = sum(1 for ents in wres[w["name"]].get("replay", {}).values() for n, d in ents if n == nm)
+            if got != want:
+                probs.append(("calls", "%s() is called %d times but replay shows %d calls" % (nm, want, got)))
         if w["name"] == "w_paddepth" and not probs:
             # main(0) t1(1) t2(2): puts() is called from t2's cleanup pad, true depth 3, after t3 was closed
             for ents in wres[w["name"]].get("replay", {}).values():
